@@ -73,3 +73,38 @@ def c20(ctx):
         out.append((lab, NC.rule_E3_third_party(ctx, prog, lab)))
         out.append((lab, NC.rule_E4(ctx, prog, lab)))
     return out
+
+
+def _configs(ctx, extra=()):
+    """quick: the host configuration (+ property-specific extras); thorough: all legal configurations."""
+    if ctx.tier == 'thorough':
+        return frontend.legal_configs()
+    out = [frontend.host_config()]
+    for e in extra:
+        if frontend.cfg_id(e) not in [frontend.cfg_id(c) for c in out]:
+            out.append(e)
+    return out
+
+
+def _prog(ctx, cfg):
+    prog = ctx.program(cfg)
+    if prog.errors:
+        raise frontend.AnalysisBroken('configuration %s does not type-check: %s' % (cfg_id(cfg), list(prog.errors.items())[0]))
+    return prog
+
+
+# ------------------------------------------------------------------ C11
+@prop('C11', level='other',
+      explanation=('Decided clauses of memory safety: E1 path-sensitive typestate over the CFG of every function that acquires or '
+                   'releases a resource (owners, windows, permutations and their windows, wrapper and libc blocks, tables, heaps, '
+                   'FILE/png handles): released/returned/stored on every path, no double release, no use after release, destructor '
+                   'kind matches (a view never frees its parent).'),
+      not_decided='absence of out-of-bounds word accesses in general, signed overflow')
+def c11(ctx):
+    from . import resources as R
+    out = []
+    for cfg in _configs(ctx):
+        prog = _prog(ctx, cfg)
+        lab = _label(cfg)
+        out.append((lab, R.rule_E1(ctx, prog, lab)))
+    return out
